@@ -53,8 +53,10 @@ theorem decodeLoop_cfg {app : App} (c : Int) : ∀ (n : Nat) (s s' : State), dec
         · split at h
           · cases h
             cfg_rfl
-          · refine Cfg.trans ?_ (ih _ _ h)
-            cfg_rfl
+          · split at h
+            · cases h; cfg_rfl
+            · refine Cfg.trans ?_ (ih _ _ h)
+              cfg_rfl
 
 theorem decodeCycle_cfg {app : App} {s s' : State} (h : decodeCycle app s = .ok s') : Cfg s s' := by
   unfold decodeCycle at h
